@@ -137,6 +137,33 @@ def gen_case(rng, stream: str) -> dict:
     case["prior"] = None if absent and stream != "dangling" else prior
     case["target"] = target
     case["cache"] = sorted(cache)
+    if stream == "history":
+        # call 1 materialises version 1 (forced, everything cached); then objects are collected from the cache;
+        # call 2 is an unforced checkout of version 2 over files that may now hold the only copy of their bytes
+        case["force"] = True
+        case["prompt"] = "none"
+        case["cache"] = sorted(set(case["cache"]) | set(target.values()))
+        case["second"] = "plain"
+        if rng.random() < 0.6:
+            case["types"] = [rng.choice(["copy", "copy", "hardlink"])]
+        t2 = {}
+        for p in target:
+            r = rng.random()
+            if r < 0.6:
+                t2[p] = rng.choice([c for c in cached_pool if c != target[p]])
+            elif r < 0.85:
+                t2[p] = target[p]
+        if not t2:
+            t2[sorted(target)[0]] = rng.choice([c for c in cached_pool if c != target[sorted(target)[0]]])
+        v1 = sorted(set(target.values()))
+        drop = rng.sample(v1, rng.randint(1, len(v1)))
+        if rng.random() < 0.3:
+            drop = sorted(set(drop) | {rng.choice(cached_pool)})
+        pm = rng.choice(["none", "none", "none", "no", "yes", "some"])
+        if pm == "some":
+            pm = rng.sample(sorted(target), rng.randint(0, len(target)))
+        case["call2"] = {"drop": sorted(drop), "target": t2, "force": rng.random() < 0.05, "prompt": pm,
+                         "relink": rng.random() < 0.3, "fresh_odb": rng.random() < 0.5}
     return normalise(case)
 
 
@@ -515,7 +542,23 @@ def run_case(ctx, case):
     token1 = indep_token(ws) if os.path.isdir(ws) else None
     ino1 = os.stat(ws).st_ino if os.path.isdir(ws) else None
     relink2 = case["relink"] if case["second"] == "same" else False
-    out2, order2, rec2, asked2 = call_checkout(case, ws, cache, tmp, contents, relink2, state_obj, odb)
+    # history cases: between the calls objects are collected from the cache (gc), and the second call may
+    # have another target / flags and may go through a fresh odb object on the same cache directory
+    hist = case.get("call2")
+    case2 = case
+    ws1b, c1b = ws1, c1
+    if hist:
+        for cid in hist.get("drop", []):
+            op = obj_path(cache, md5hex(contents[cid]))
+            if os.path.lexists(op):
+                os.chmod(op, 0o644)
+                os.unlink(op)
+        case2 = dict(case, force=hist["force"], prompt=hist["prompt"], target=hist["target"])
+        relink2 = hist["relink"]
+        if hist.get("fresh_odb"):
+            odb = impl.make_odb(case["cls"], cache, **cfg)
+        ws1b, c1b = snap_ws(ws), snap_cache(cache)
+    out2, order2, rec2, asked2 = call_checkout(case2, ws, cache, tmp, contents, relink2, state_obj, odb)
     ws2, c2 = snap_ws(ws), snap_cache(cache)
     if state_obj is not None:
         state_obj.close()
@@ -528,17 +571,19 @@ def run_case(ctx, case):
     exp1 = vL([outcome_val(out1), enc.ws_val(ws1), rec_val(case, enc, ws, rec1 if case["state"] else None), enc.cache_val(c1)])
     res["items"].append(({"case": case, "call": 1},
                          input_term(case, enc, links, case["relink"], c0, ws0, contents, order1), exp1))
-    enc2 = Enc(cache, c1, ws1)
+    enc2 = Enc(cache, c1b, ws1b)
     exp2 = vL([outcome_val(out2), enc2.ws_val(ws2), rec_val(case, enc2, ws, rec2 if case["state"] else None), enc2.cache_val(c2)])
     res["items"].append(({"case": case, "call": 2},
-                         input_term(case, enc2, links, relink2, c1, ws1, contents, order2), exp2))
+                         input_term(case2, enc2, links, relink2, c1b, ws1b, contents, order2), exp2))
 
     # ---- oracle C05: account for every byte string lost from the workspace
     dangling = any(e["broken"] for e in ws0.values())
-    for (before, after, cbefore, out, asked, tag) in ((ws0, ws1, c0, out1, asked1, "call1"), (ws1, ws2, c1, out2, asked2, "call2")):
+    for (before, after, cbefore, out, asked, tag, forced) in (
+            (ws0, ws1, c0, out1, asked1, "call1", case["force"]),
+            (ws1b, ws2, c1b, out2, asked2, "call2" + (" (after objects were collected from the cache)" if hist else ""), case2["force"])):
         if out[0] == "exc":
             res["c05"].append((f"C05:unexpected-exception:{out[1].split(':')[0]}", f"checkout raised {out[1]} ({tag})"))
-        if case["force"]:
+        if forced:
             continue
         yes = {rel for rel, ans in asked if ans}
         for rel, e in before.items():
@@ -562,7 +607,7 @@ def run_case(ctx, case):
                 res["c05"].append(("C05:refused-but-touched", f"{tag}: PromptError('{rel}') but the path changed"))
 
     # ---- oracle C10
-    for cb, ca, tag in ((c0, c1, "call1"), (c1, c2, "call2")):
+    for cb, ca, tag in ((c0, c1, "call1"), (c1b, c2, "call2")):
         if {o: v["bytes"] for o, v in cb.items()} != {o: v["bytes"] for o, v in ca.items()}:
             res["c10"].append(("C10:cache-bytes-changed", f"{tag}: the byte snapshot of the cache changed"))
     tgt_bytes = {rel: contents[cid] for rel, cid in case["target"].items()}
@@ -577,11 +622,13 @@ def run_case(ctx, case):
             if got != tgt_bytes:
                 res["c10"].append(("C10:not-converged" + tagq, f"workspace after checkout differs from the target: "
                                                         f"{sorted(set(got) ^ set(tgt_bytes)) or [r for r in got if got[r] != tgt_bytes[r]]}"))
-            if case["second"] == "plain" or not case["relink"]:
+            if hist:
+                pass                                    # the second call of a history is another checkout
+            elif case["second"] == "plain" or not case["relink"]:
                 if out2 != ("none",):
                     res["c10"].append(("C10:not-idempotent" + tagq, f"second checkout returned {out2} instead of None"))
             view = lambda s: {r: (e["bytes"], e["islink"], e["dest"], e["ino"]) for r, e in s.items()}  # noqa: E731
-            if (case["second"] == "plain" or not case["relink"]) and view(ws2) != view(ws1):
+            if not hist and (case["second"] == "plain" or not case["relink"]) and view(ws2) != view(ws1):
                 res["c10"].append(("C10:second-call-changed-workspace" + tagq, "the second checkout changed the workspace"))
             if case["relink"]:
                 allowed = set(links)
